@@ -3,6 +3,7 @@ package main
 import (
 	"fmt"
 	"runtime"
+	"strings"
 	"time"
 
 	"github.com/ddddddO/gtree"
@@ -124,6 +125,87 @@ func checkEncodersMassive(r *evid.Run, pool *wproto.Pool, d *DocState, c *tok.Co
 	}
 }
 
+// c04Composition: one root with more than 10000 leaves (120 directories of 100 entries, then nodes with children of
+// their own) - far beyond what TLC evaluates.  Forest.tla 3a (TrieComposes, an invariant of MC_C04): the tree of the
+// root is its name over the trees of its children's sub-documents.  So the big output, decoded, must hold under its
+// root exactly the trees that the same call gives for the 120+ small sub-documents (which are of the sizes the
+// trace validation covers).
+func c04Composition(r *evid.Run) {
+	var subs []string
+	for d := 0; d < 124; d++ {
+		var sb strings.Builder
+		fmt.Fprintf(&sb, "- dir%03d\n", d)
+		n := 100
+		if d >= 120 {
+			n = 3 // (after the 12000th leaf: nodes with children, two levels)
+		}
+		for f := 0; f < n; f++ {
+			fmt.Fprintf(&sb, "  - f%02d\n", f)
+			if d >= 120 {
+				fmt.Fprintf(&sb, "    - g%d\n", f)
+			}
+		}
+		subs = append(subs, sb.String())
+	}
+	var big strings.Builder
+	big.WriteString("- R\n")
+	for _, s := range subs {
+		for _, l := range strings.SplitAfter(s, "\n") {
+			if l != "" {
+				big.WriteString("  " + l)
+			}
+		}
+	}
+	for _, er := range encRoutes {
+		var want []string
+		for _, s := range subs {
+			o := real.OutputMD(s, er.opt)
+			r.Count("real_calls", 1)
+			dt, err := er.decode(o.Out)
+			if o.Class() != "ok" || err != nil || len(dt) != 1 {
+				r.Mismatch("md-"+er.name+":composition:sub-document", fmt.Sprintf("sub-document %q: %s %v %v", clip(s, 60), o.Class(), o.Err, err), map[string]any{"doc": s})
+				return
+			}
+			want = append(want, treeKey(dt[0]))
+		}
+		for _, noiter := range []bool{false, true} {
+			opts := []gtree.Option{er.opt}
+			route := "md-" + er.name
+			if noiter {
+				opts = append(opts, gtree.WithNoUseIterOfSimpleOutput())
+				route += "/slice"
+			}
+			o := real.OutputMD(big.String(), opts...)
+			r.Count("real_calls", 1)
+			r.Count("composition_checks", 1)
+			dt, err := er.decode(o.Out)
+			if o.Class() != "ok" || err != nil || len(dt) != 1 || dt[0].Value != "R" {
+				r.Mismatch(route+":composition:big-document", fmt.Sprintf("one root with 12012 leaves: %s %v decode=%v roots=%d", o.Class(), o.Err, err, len(dt)), map[string]any{"route": route})
+				continue
+			}
+			var got []string
+			for _, k := range dt[0].Children {
+				got = append(got, treeKey(k))
+			}
+			if !sameStrs(got, want) {
+				at := 0
+				for at < len(got) && at < len(want) && got[at] == want[at] {
+					at++
+				}
+				r.Mismatch(route+":composition:not-isomorphic", fmt.Sprintf("one root R with 124 directories (12012 leaves): child #%d of R differs from the tree of its sub-document (children of R: %d, sub-documents: %d); got %s want %s",
+					at, len(got), len(want), clip(at2(got, at), 200), clip(at2(want, at), 200)), map[string]any{"route": route, "child": at})
+			}
+		}
+	}
+}
+
+func at2(s []string, i int) string {
+	if i < len(s) {
+		return s[i]
+	}
+	return "<none>"
+}
+
 func checkDecoded(r *evid.Run, d *DocState, c *tok.Conc, doc, route string, er encRoute, o real.Outcome, want []*Tree) {
 	rp := docReplay{Doc: d.Doc, Conc: c, Bytes: doc, Route: route, Got: o.Out, Err: o.ErrString()}
 	if o.Class() != "ok" {
@@ -182,6 +264,10 @@ func checkC04(r *evid.Run) {
 	// beyond the bound: random forests (wide nodes: 9 - 16 children, half of the time below a root; deep chains) through
 	// the encoders in simple and massive mode, the decoded forests validated by TLC (TraceDoc.tla: "tree" / "mtree")
 	traceDocs(r, "C04", traceSpec{Ops: []string{"tree"}, Params: genParams{MaxNodes: 60, MaxDepth: 7, MaxRoots: 4, NChunks: 12}, NQuick: 80, NThorough: 800})
+	fant := traceSpecFan // one level of 300-450 siblings
+	fant.Ops, fant.NQuick, fant.NThorough = []string{"tree"}, 2, 12
+	traceDocs(r, "C04", fant)
+	c04Composition(r)
 	sessionPhase(r) // Session.tla: the calls this property owns, after every other call of the alphabet
 	r.Set("exhaustive", true)
 	r.Set("rule", "every forest up to the bound over 4 names x {JSON, YAML, TOML(single root)} x {From-Markdown iter, From-Markdown slice, From-Root}, decoded with the decoders gtree links and compared structurally; each under hostile concretisations of the chunks; non-trivial = at least 2 nodes")
